@@ -12,11 +12,11 @@ import (
 
 type verifExtractor struct{ eco string }
 
-func (e verifExtractor) Name() string                                 { return "verif" }
-func (e verifExtractor) Version() int                                 { return 0 }
-func (e verifExtractor) Requirements() *plugin.Capabilities           { return &plugin.Capabilities{} }
-func (e verifExtractor) ToPURL(*extractor.Package) *purl.PackageURL   { return nil }
-func (e verifExtractor) Ecosystem(*extractor.Package) string          { return e.eco }
+func (e verifExtractor) Name() string                               { return "verif" }
+func (e verifExtractor) Version() int                               { return 0 }
+func (e verifExtractor) Requirements() *plugin.Capabilities         { return &plugin.Capabilities{} }
+func (e verifExtractor) ToPURL(*extractor.Package) *purl.PackageURL { return nil }
+func (e verifExtractor) Ecosystem(*extractor.Package) string        { return e.eco }
 
 const (
 	kIntroduced = 0
